@@ -92,8 +92,8 @@ type vCtx struct {
 
 func vNewCtx() *vCtx { return &vCtx{done: make(chan struct{})} }
 
-func (c *vCtx) Deadline() (time.Time, bool) { return c.deadline, c.hasDL }
-func (c *vCtx) Done() <-chan struct{}       { return c.done }
+func (c *vCtx) Deadline() (time.Time, bool)       { return c.deadline, c.hasDL }
+func (c *vCtx) Done() <-chan struct{}             { return c.done }
 func (c *vCtx) Value(key interface{}) interface{} { return nil }
 func (c *vCtx) Err() error {
 	c.mu.Lock()
@@ -145,22 +145,22 @@ func (vTimeoutErr) Timeout() bool   { return true }
 func (vTimeoutErr) Temporary() bool { return true }
 
 type vDConn struct {
-	mu        sync.Mutex
-	dl        time.Time
-	ops       int  // I/O and deadline operations so far
-	cancelAt  int  // cancel the context at operation #cancelAt (-1: never)
-	cancelLate bool // ... at its end instead of its start
-	ctx       *vCtx
-	silent    bool // the peer never answers
-	wrote     []byte
-	resp      []byte
-	pos       int
-	closed    bool
-	returned  bool // Dial has returned
-	opsAfter  int  // operations observed after Dial returned
-	setDLs    int
-	lastIOErr error
-	ioDone    int // ops index of the last read/write
+	mu                   sync.Mutex
+	dl                   time.Time
+	ops                  int  // I/O and deadline operations so far
+	cancelAt             int  // cancel the context at operation #cancelAt (-1: never)
+	cancelLate           bool // ... at its end instead of its start
+	ctx                  *vCtx
+	silent               bool // the peer never answers
+	wrote                []byte
+	resp                 []byte
+	pos                  int
+	closed               bool
+	returned             bool // Dial has returned
+	opsAfter             int  // operations observed after Dial returned
+	setDLs               int
+	lastIOErr            error
+	ioDone               int // ops index of the last read/write
 	poisonedBeforeLastIO bool
 }
 
